@@ -437,10 +437,25 @@ class Translator:
 KIND = {'sync': 'KSync', 'async': 'KAsync', 'none': 'KNone'}
 
 
+def load_full_registry():
+    """HCI_Command.command_classes grows when the driver and vendor modules are imported (they
+    register vendor commands at import time, and bumble.host imports the drivers): import all of
+    them so that the table covers what a complete process sees.  Fail closed."""
+    import importlib
+    import pkgutil
+    import bumble.host  # noqa: F401  (imports bumble.drivers)
+    import bumble.drivers
+    import bumble.vendor
+    for pkg in (bumble.drivers, bumble.vendor):
+        for m in pkgutil.walk_packages(pkg.__path__, pkg.__name__ + '.'):
+            importlib.import_module(m.name)
+
+
 def translate():
     """returns (coq_text, info).  info: rows [(opcode, name, kind, handler_name|None, skeleton_text)], stats"""
     import bumble.hci as hci
     import bumble.controller as controller
+    load_full_registry()
 
     tr = Translator(hci, controller)
     tr.check_primitives()
